@@ -21,6 +21,18 @@ structure Res where
   findings : List (String × String × String × String) := []    -- kind, properties, name, detail
 
 def check (j : Json) : Res := Id.run do
+  if J.strOf j "probe" == "restore_absent" then
+    -- C08 / C05: the claimed purchase is gone (expired while the claim was open), its purchaser still holds another purchase in the pool;
+    -- the gov end-blocker calls RestoreShield outside any recover: it must return, and restore nothing (`C05.rejected_restores_absent`)
+    if J.has j "skipped" then return { stats := ["sparams.restore_absent_skipped"] }
+    let outcome := J.strOf j "outcome"
+    let what := s!"RestoreShield(pool {J.intOf j "pool"}, {J.strOf j "purchaser"}, purchase {J.intOf j "purchase"} — not among the purchaser's {J.intOf j "entries"} purchases there): {outcome}; total shield {J.strOf j "total_before"} -> {J.strOf j "total_after"}"
+    let mut r : Res := { stats := ["sparams.restore_absent"] }
+    if (outcome.splitOn "panic").length > 1 then
+      r := { r with findings := ("monitor", "C08,C05", "restore_of_an_expired_purchase_returns", what) :: r.findings }
+    else if J.strOf j "total_before" != J.strOf j "total_after" then
+      r := { r with findings := ("monitor", "C05", "restore_of_an_expired_purchase_restores_nothing", what) :: r.findings }
+    return r
   let old := J.intOf j "old"
   let new := J.intOf j "new"
   let cls := if new > old then "longer" else if new < old then "shorter" else "same"
@@ -44,12 +56,13 @@ def check (j : Json) : Res := Id.run do
     r := { r with findings := ("diverge", "C07", "sparams:request_refused", what) :: r.findings }
     return r
   r := { r with stats := "mon.c07.withdraw_waits_the_configured_period" :: r.stats }
+  -- the configured period is the value the chain accepted (`new`), whatever the keeper reads back
   for (_, t) in queued do
-    if t < now + stored then
+    if t < now + new then
       r := { r with findings := ("monitor", "C07", "withdraw_waits_the_configured_period",
-        s!"an entry completes {now + stored - t} ns before the configured period is over. {what}") :: r.findings }
-  if !(queued.length == 1 && queued.all (fun e => e.1 == amount && e.2 == now + stored)) then
-    if queued.all (fun e => e.2 ≥ now + stored) then
+        s!"an entry completes {now + new - t} ns before the configured period is over. {what}") :: r.findings }
+  if !(queued.length == 1 && queued.all (fun e => e.1 == amount && e.2 == now + new)) then
+    if queued.all (fun e => e.2 ≥ now + new) then
       r := { r with findings := ("diverge", "C07", "sparams:queue_entry", what) :: r.findings }
   else r := { r with stats := "sparams.agree" :: r.stats }
   return r
